@@ -98,6 +98,9 @@ pub enum Mut {
     /// step `send` (Test01..Test11) is sent under the finished client id: a step out of order
     AfterEnd { send: usize },
     UnknownClientId,
+    /// the step under a made-up client id (refused), then Test01 under the same made-up id: refusing an
+    /// id must not make it known
+    UnknownClientIdTwice,
     NoParameters,
     /// the `parameters` member as a whole replaced by a non-object value
     SetParams(Value),
@@ -331,7 +334,7 @@ fn apply(req: &mut Value, m: &Mut) {
                 }
             }
         }
-        Mut::UnknownClientId => {
+        Mut::UnknownClientId | Mut::UnknownClientIdTwice => {
             if let Some(p) = req.get_mut("parameters").and_then(|p| p.as_object_mut()) {
                 p.insert("client_id".into(), json!("0123456789abcdef"));
             }
@@ -661,6 +664,13 @@ pub fn run_q(case: &QCase) -> (SimEnd, crate::sched::SimStats, QObs) {
                             ob.request = req;
                             ob.replies = replies;
                             ob.ended = ended;
+                            if let Mut::UnknownClientIdTwice = &d.m {
+                                if !ended {
+                                    let again = canonical_request(1, "0123456789abcdef", &Value::Null, &strings);
+                                    let (r2, _) = raw.call(&again, false);
+                                    ob.copies.push(r2.last().cloned());
+                                }
+                            }
                             if let Mut::WrongStepThen { send } = &d.m {
                                 if !ended {
                                     // the step after the refused one, with canonical parameters as far as known
@@ -845,6 +855,20 @@ pub fn judge_q(case: &QCase, end: &SimEnd, o: &QObs) -> (Vec<Violation>, bool) {
                 }
             }
             continue;
+        }
+        if let Mut::UnknownClientIdTwice = &d.m {
+            if let Some(Some(r2)) = ob.copies.first() {
+                if r2.get("error").is_none() {
+                    v.push(viol(
+                        "C19",
+                        "refused-id-became-known",
+                        format!(
+                            "step {} under a made-up client id was refused, yet Test01 under the same made-up id was then answered without an error: {}",
+                            STEPS[d.step], r2
+                        ),
+                    ));
+                }
+            }
         }
         if let Mut::PipelinedWrongStep { send } = &d.m {
             match ob.copies.get(1) {
@@ -1076,6 +1100,9 @@ pub fn deviation_space(canon_params: &[Value]) -> Vec<Deviation> {
                     muts.push(Mut::Remove { path: vec![k.clone()] });
                 }
                 muts.push(Mut::UnknownClientId);
+                if step != 11 {
+                    muts.push(Mut::UnknownClientIdTwice);
+                }
                 muts.push(Mut::Remove { path: vec!["client_id".into()] });
                 muts.push(Mut::Set { path: vec!["client_id".into()], value: json!(7) });
                 muts.push(Mut::NoParameters);
